@@ -36,6 +36,7 @@ def valMarked : Val → Bool
   | .data => false
   | .inst h => h.exposed
   | .cls h => h.exposed
+  | .fn f => f.exposed
 
 /-- no plain attribute, of the instance or visible on the type, holds an instance or the class of an
     `@expose`d helper class (the shapes of finding F2b) -/
